@@ -96,14 +96,14 @@ Proof. exact unselected_rule_is_skipped. Qed.
 Print Assumptions no_hooks_for_deselected_rule.
 
 (* non-interference: two runs of the same program under ANY two fault sets (cfg and
-   set_faults cfg f2; e.g. the fault-free run and a faulted one), no --stop, no aborting step,
-   before_all not raising.  sim_feature / sim_rule / sim_sitem say, level by level:
+   set_faults cfg f2; e.g. the fault-free run and a faulted one), no --stop, no aborting step, no hook
+   that calls context.abort(), before_all not raising.  sim_feature / sim_rule / sim_sitem say, level by level:
    an element none of whose own hook sites (its before/after hooks, its tag hooks, the step
    hooks of its steps, and those of everything below it) is affected has the SAME result in
    both runs; an element whose own hooks are unaffected has children that are related in the
    same way - so only the affected element, its ancestors and its descendants may differ *)
 Theorem hook_faults_leave_unrelated_elements_alone :
-  forall cfg f2, c_stop cfg = false ->
+  forall cfg f2, no_hook_aborts cfg -> c_stop cfg = false ->
   forall fs rs1 v1 a1 e1 rs2 v2 a2 e2,
     forallb na_feature fs = true ->
     c_faults cfg HBeforeAll 0 = false -> f2 HBeforeAll 0 = false ->
@@ -113,10 +113,10 @@ Theorem hook_faults_leave_unrelated_elements_alone :
 Proof. exact hook_faults_do_not_interfere. Qed.
 Print Assumptions hook_faults_leave_unrelated_elements_alone.
 
-(* without aborting steps every scenario hands the runner state back as it got it,
+(* without aborting steps and aborting hooks every scenario hands the runner state back as it got it,
    whatever its hooks did: a hook fault cannot leak through the runner state *)
 Theorem scenario_restores_the_runner_state :
-  forall c st id all_steps oe eff own st' res fld ev,
+  forall c, no_hook_aborts c -> forall st id all_steps oe eff own st' res fld ev,
     na_steps all_steps = true ->
     run_scenario c st id all_steps oe eff own = (st', res, fld, ev) -> st' = st.
 Proof. exact run_scenario_frame. Qed.
@@ -135,8 +135,8 @@ Print Assumptions unaffected_scenario_runs_identically.
 Example interference_example :
   let hooks := [HBeforeAll; HAfterAll; HBeforeFeature; HAfterFeature; HBeforeRule; HAfterRule;
                 HBeforeScenario; HAfterScenario; HBeforeStep; HAfterStep; HBeforeTag; HAfterTag] in
-  let free := mkCfgData false false true TTrue hooks [] [] 99 false None in
-  let flt := mkCfgData false false true TTrue hooks [(HBeforeScenario, 4)] [] 99 false None in
+  let free := mkCfgData false false true TTrue hooks [] [] 99 false None [] in
+  let flt := mkCfgData false false true TTrue hooks [(HBeforeScenario, 4)] [] 99 false None [] in
   let f := mkFeature 1 [7] None [FRule (mkRule 2 [8] None [SScen (mkScen 4 [9] [mkStep KPass 5]);
                                                            SScen (mkScen 6 [] [mkStep KFail 7])])] in
   let g := mkFeature 10 [] None [FItem (SScen (mkScen 11 [] [mkStep KPass 12]))] in
@@ -154,7 +154,7 @@ Example nested_trace :
   let cfg := mkCfgData false false true TTrue
                [HBeforeAll; HAfterAll; HBeforeFeature; HAfterFeature; HBeforeRule; HAfterRule;
                 HBeforeScenario; HAfterScenario; HBeforeStep; HAfterStep; HBeforeTag; HAfterTag]
-               [(HBeforeScenario, 4)] [] 99 false None in
+               [(HBeforeScenario, 4)] [] 99 false None [] in
   let f := mkFeature 1 [7] None [FRule (mkRule 2 [8] None [SScen (mkScen 4 [9] [mkStep KPass 5])])] in
   hooks_of (snd (run_case (cfg, [f]))) =
   [(HBeforeAll, 0); (HBeforeTag, 7); (HBeforeFeature, 1); (HBeforeTag, 8); (HBeforeRule, 2);
